@@ -364,6 +364,10 @@ async function execC16(mods, SPC, run) {
     } catch (e) {
       res = { ok: false, msg: String(e && e.message) };
       out.throws++;
+      // a print that dies of stack exhaustion: the recursion through named types was not cut (the in-progress
+      // mark exists for that) - in the history and, consistently, in every fresh context as well, so that the
+      // differential clauses see nothing
+      if (e instanceof RangeError) viol("print-recursion-is-not-cut:stack-exhausted", { op_index: i, parser: op.parser, msg: res.msg });
     }
     if (res.ok !== fresh.ok) {
       viol(res.ok ? "print-returns-where-fresh-context-throws" : "print-throws-where-fresh-context-returns", { op_index: i, parser: op.parser, got: res.ok ? res.schema : res.msg, fresh: fresh.ok ? fresh.schema : fresh.msg });
@@ -1743,6 +1747,19 @@ async function main() {
   if (reported.length) {
     for (const r of reported) console.log(`VIOLATION property=${prop} replay=${r.p} class=${r.cls}`);
     process.exit(1);
+  }
+  // vacuity guard: the oracles compare the code under test with itself (a context with a past against fresh
+  // contexts; a digest against the bytes the writer was seen to take in), so a runtime in which nearly every print
+  // throws, or which writes nothing, would pass them all - and nothing would have been decided
+  if (!only && agg.n >= 1000) {
+    if (prop === "C16" && (agg.throws * 10 > agg.prints * 6 || agg.refs === 0 || agg.defs === 0)) {
+      console.log(`HARNESS-ERROR: the workload has become vacuous: ${agg.throws} of ${agg.prints} prints threw (normally about a quarter), ${agg.refs} $refs resolved, ${agg.defs} definitions compared: nothing was decided`);
+      process.exit(2);
+    }
+    if (prop === "C13" && (agg.bytes < agg.n * 20 || !(agg.siblings > 0))) {
+      console.log(`HARNESS-ERROR: the workload has become vacuous: ${agg.bytes} bytes digested in ${agg.n} sequences, ${agg.siblings || 0} siblings compared: nothing was decided`);
+      process.exit(2);
+    }
   }
   process.exit(0);
 }
